@@ -2,7 +2,9 @@
 
   C18.O  positional wiring of the VmFunctionN wrappers: the stack position read for parameter i is the i-th pushed
          argument, it is converted with T_i::try_from, a failed conversion names parameter i, and the host function is
-         called with the converted values in declaration order; the arguments are removed exactly once.
+         called with the converted values in declaration order; the arguments are removed exactly once. A row may be
+         written in the wrapper or in a private helper that is told the position (conversion_rows); the reported number is
+         the first integer formatted into the invalid_argument message (error_position).
   C18.W  call_native wraps an error of the host function in TaskFailure carrying the procedure's name and pushes the
          result on the Ok path.
   C18.W  (who-may-call) the host callable of a Procedure (`VmFunction::call`) is invoked only from call_native - every other
@@ -17,6 +19,9 @@
   C18.N  reserved names: every public way to register a native rejects names starting with `__`.
   C18.B  re-entry is frame-balanced: run_function pushes two frames, pops one itself (the callee's Return pops the
          other), and the trap frame returns to the final Exit instruction.
+  C18.A  (cao/abortbal.py) after the nested interpreter loop came back with Ok, the call-stack depth is looked at before
+         the trap frame is popped: an Abort card inside the callee also ends the loop with Ok, with the callee's frames
+         still pushed.
 """
 import re
 from cao.facts import (AnchorMissing, callee_names, short, op_local, op_place, DefUse, hir_walk, hir_callee, hir_strip, hir_local_id)
@@ -24,6 +29,8 @@ from cao.rules import Rule, ok, bad, undecided, note, shared
 import rules.c14 as _c14
 from cao import mirutil as mu
 from cao import hirutil as hu
+from cao import abortbal
+from cao import framebal as _fb
 
 EXPLANATION = (
     "The wrappers that adapt `fn(&mut Vm, T1..Tk)` to VmFunction are four hand-written siblings; C18.O reads each one's "
@@ -125,6 +132,42 @@ def _const_hook(F):
     return hook
 
 
+def error_position(F, e, env, hook, depth=0):
+    """The input number a conversion error reports: the first integer that is formatted into the message handed to
+    ExecutionErrorPayload::invalid_argument - written in place, or inside a crate function that builds the error from its
+    parameters (then the integer arguments of the call are the parameters' values). None if not found / not evaluable."""
+    for y in hir_walk(e):
+        if y.get("k") != "call":
+            continue
+        names = hir_callee(y)
+        if any(n.endswith("ExecutionErrorPayload::invalid_argument") for n in names):
+            # format!(..): `let args = (&a, &b, ..)` holds the formatted values in order
+            for z in hir_walk(y):
+                if z.get("k") == "tup" and z["elems"] and all(hir_strip(x).get("k") == "addr_of" for x in z["elems"]):
+                    for x in z["elems"]:
+                        inner = hir_strip(x)["e"]
+                        if re.match(r"^&?(usize|u8|u16|u32|u64|i8|i16|i32|i64|isize)$", str(inner.get("ty") or "")):
+                            return hu.eval_int(F, inner, env, hook)
+                    return None
+            return None
+        if depth < 2:
+            for n in names:
+                h = F.fn(n, required=False)
+                if h is None or not h.hir or h.is_closure or "ExecutionErrorPayload" not in str((h.raw.get("sig") or {}).get("output")):
+                    continue
+                params = h.hir.get("params", [])
+                if len(params) != len(y["args"]):
+                    continue
+                henv = {}
+                for p_, a in zip(params, y["args"]):
+                    if p_.get("k") == "bind":
+                        v = hu.eval_int(F, a, env, hook)
+                        if v is not None:
+                            henv[p_["id"]] = v
+                return error_position(F, h.hir["body"], henv, hook, depth + 1)
+    return None
+
+
 def _unwrap_try(e):
     """`x?` -> x"""
     e = hir_strip(e)
@@ -183,11 +226,10 @@ def conversion_rows(F, g, env=None, tyenv=None, depth=0):
         for y in hir_walk(init):
             if y.get("k") == "call" and any(n.endswith("TryFrom::try_from") for n in hir_callee(y)):
                 tf = y
-            if y.get("k") == "call" and "traits::conversion_error" in hir_callee(y):
-                lit = hu.eval_int(F, y["args"][0], env, hook)
-                for z in hir_walk(y):
-                    if z.get("k") == "call" and any(n.endswith("any::type_name") for n in hir_callee(z)):
-                        tn = (hir_strip(z["f"])["path"].get("args") or [None])[0]
+            if y.get("k") == "call" and any(n.endswith("any::type_name") for n in hir_callee(y)):
+                tn = (hir_strip(y["f"])["path"].get("args") or [None])[0]
+        if tf is not None:
+            lit = error_position(F, init, env, hook)
         if tf is not None:
             ty = ((tf.get("f") or {}).get("path", {}).get("callee", {}) or {}).get("args") or (hir_strip(tf["f"])["path"].get("args") or [])
             convs.append({"source": sources.get(hir_local_id(tf["args"][0])), "dst": dst, "ty": subst(ty[0] if ty else None), "lit": lit,
@@ -443,6 +485,7 @@ def rule_b(F):
     res = []
     f0 = F.fn("vm::Vm::run_function")
     memo = {}
+    LOOP = fb.interpreter_loop(F)      # the interpreter loop (Vm::_run), located by what it does
     # the unit: run_function and the crate-local helpers through which it pushes frames / runs the callee
     unit = [f0]
     work = [f0]
@@ -451,7 +494,7 @@ def rule_b(F):
         for bi, t in mu.calls(cur):
             for n in callee_names(t["func"]):
                 g = F.fn(n, required=False)
-                if g is not None and g.mir and not g.is_closure and g is not f0 and n.startswith("vm::Vm::") and n != "vm::Vm::_run" \
+                if g is not None and g.mir and not g.is_closure and g is not f0 and n.startswith("vm::Vm::") and n != LOOP \
                         and fb._touches(F, g, memo) and g not in unit:
                     unit.append(g)
                     work.append(g)
@@ -486,17 +529,20 @@ def rule_b(F):
         return False
 
     def has_push(g, depth=0):
-        dug = DefUse(g)
-        for _bi, t in mu.calls(g):
-            nm_ = callee_names(t["func"])
-            if "collections::bounded_stack::BoundedStack::push" in nm_ and t["args"] and fb._is_call_stack(g, dug, t["args"][0]):
-                return True
-            if depth < 3:
-                for n_ in nm_:
-                    h_ = F.fn(n_, required=False)
-                    if h_ is not None and h_.mir and not h_.is_closure and h_ is not g and n_.startswith("vm::Vm::") and n_ != "vm::Vm::_run" \
-                            and h_ is not f0 and has_push(h_, depth + 1):
-                        return True
+        for g_ in [g] + F.closures_of.get(g.short, []):          # a push may sit in a closure of g (`.and_then(|()| stack.push(..))`)
+            if not g_.mir:
+                continue
+            dug = DefUse(g_)
+            for _bi, t in mu.calls(g_):
+                nm_ = callee_names(t["func"])
+                if "collections::bounded_stack::BoundedStack::push" in nm_ and t["args"] and fb._is_call_stack(g_, dug, t["args"][0]):
+                    return True
+                if depth < 3:
+                    for n_ in nm_:
+                        h_ = F.fn(n_, required=False)
+                        if h_ is not None and h_.mir and not h_.is_closure and h_ is not g and n_.startswith("vm::Vm::") and n_ != LOOP \
+                                and h_ is not f0 and has_push(h_, depth + 1):
+                            return True
         return False
 
     def truncates(g, depth=0):
@@ -579,11 +625,12 @@ def rule_b(F):
                       "(%d site(s) in run_function, helpers that fail clean not counted) and of the value stack" % n_unwind))
     pushes = []
     runs = []
-    for g in unit:
+    unit_cl = unit + [c for g in unit for c in F.closures_of.get(g.short, []) if c.mir]      # ... and their closures
+    for g in unit_cl:
         du_g = DefUse(g)
         pushes += [(g, bi, t) for bi, t in mu.calls(g) if "collections::bounded_stack::BoundedStack::push" in callee_names(t["func"])
                    and fb._is_call_stack(g, du_g, t["args"][0])]
-        runs += [(g, bi, t) for bi, t in mu.calls(g) if "vm::Vm::_run" in callee_names(t["func"])]
+        runs += [(g, bi, t) for bi, t in mu.calls(g) if LOOP in callee_names(t["func"])]
     if not pushes or not runs:
         raise AnchorMissing("frame push / _run in run_function or its helpers")
     f = pushes[0][0]
@@ -591,8 +638,9 @@ def rule_b(F):
     cfg = f.cfg
     # the trap frame returns to the final Exit: dst_instr_ptr = bytecode.len() - 1
     def is_len_minus_one(g, l, depth=0):
-        """local l of g holds `<Vec>.len() - 1`, followed through copies, casts and - when it is a parameter of a helper -
-        into the argument at every call site inside the unit"""
+        """local l of g holds `<Vec>.len() - 1`, followed through copies, casts and references, - when it is a parameter of a
+        helper - into the argument at every call site inside the unit, and - when it is a variable captured by a closure -
+        into the enclosing function"""
         du_g = DefUse(g)
         seen = set()
         while l is not None and l not in seen:
@@ -600,7 +648,7 @@ def rule_b(F):
             if 1 <= l <= g.mir["arg_count"] and not du_g.defs.get(l):
                 if depth > 4:
                     return False
-                sites = [(h, t0) for h in unit for _bi0, t0 in mu.calls(h) if g.short in callee_names(t0["func"]) and len(t0["args"]) >= l]
+                sites = [(h, t0) for h in unit_cl for _bi0, t0 in mu.calls(h) if g.short in callee_names(t0["func"]) and len(t0["args"]) >= l]
                 return bool(sites) and all(op_local(t0["args"][l - 1]) is not None and is_len_minus_one(h, op_local(t0["args"][l - 1]), depth + 1)
                                            for h, t0 in sites)
             d = du_g.sole_def(l)
@@ -611,33 +659,48 @@ def rule_b(F):
                 ll = op_local(rv["l"])
                 dd = du_g.sole_def(ll) if ll is not None else None
                 return dd is not None and dd[2] == "call" and any(n.endswith("Vec::len") for n in callee_names(dd[3]["func"]))
-            if rv["k"] in ("use", "cast"):
-                p_ = op_place(rv["op"])
+            if rv["k"] in ("use", "cast", "ref", "rawptr"):
+                p_ = op_place(rv["op"]) if rv["k"] in ("use", "cast") else rv["place"]
                 if p_ is None:
                     return False
-                l = p_["l"]   # `.0` of a checked-arithmetic tuple is transparent
+                flds = [e for e in p_["p"] if e["k"] == "field"]
+                if g.is_closure and p_["l"] == 1 and flds:
+                    # a captured variable: field i of the closure environment = operand i of the closure aggregate in the parent
+                    if depth > 4:
+                        return False
+                    parent = F.fn(g.parent, required=False)
+                    if parent is None or not parent.mir:
+                        return False
+                    for b_ in parent.blocks:
+                        for st_ in b_["stmts"]:
+                            if st_["k"] == "assign" and st_["rv"]["k"] == "agg" and st_["rv"]["agg"].get("k") == "closure" and \
+                                    short(st_["rv"]["agg"].get("path", "")) == g.short and flds[0]["i"] < len(st_["rv"]["ops"]):
+                                return is_len_minus_one(parent, op_local(st_["rv"]["ops"][flds[0]["i"]]), depth + 1)
+                    return False
+                l = p_["l"]   # `.0` of a checked-arithmetic tuple / a dereference is transparent
                 continue
             return False
         return False
 
-    okdst = False
+    okdst = None
     n_frames = 0
-    for g in unit:
+    for g in unit_cl:
         for b in g.blocks:
             for st in b["stmts"]:
                 if st["k"] == "assign" and st["rv"]["k"] == "agg" and short(st["rv"]["agg"].get("path", "")).endswith("runtime::CallFrame"):
                     fields = st["rv"]["agg"]["fields"]
                     n_frames += 1
-                    okdst = is_len_minus_one(g, op_local(st["rv"]["ops"][fields.index("dst_instr_ptr")]))
+                    this = is_len_minus_one(g, op_local(st["rv"]["ops"][fields.index("dst_instr_ptr")]))
+                    okdst = this if okdst is None else (okdst and this)
     if okdst:
         res.append(ok("C18.B", "C18/B/run_function/trap-returns-to-exit", f.loc(), "the trap frame's return address is bytecode.len() - 1, the final Exit (C10.E)"))
     else:
         res.append(bad("C18.B", "C18/B/run_function/trap-returns-to-exit", f.loc(), "the trap frame does not return to the final Exit instruction: the callee's Return continues executing the program"))
     # the result is popped and returned
     starts = [(g, t["target"]) for g, _bi, t in runs if t["target"] is not None]
-    if direct:
-        starts += [(f0, t["target"]) for bi, t in mu.calls(f0) if t["target"] is not None and
-                   any(F.fn(n, required=False) in direct for n in callee_names(t["func"]))]
+    # ... and after the return of every helper of the unit through which the nested run is reached
+    starts += [(g, t["target"]) for g in unit for bi, t in mu.calls(g) if t["target"] is not None and
+               any(F.fn(n, required=False) in unit[1:] and F.fn(n, required=False) is not g for n in callee_names(t["func"]))]
     ret_pop = any(any(n.endswith("Vm::stack_pop") for n in callee_names(t["func"]))
                   for g, st_ in starts for bi, t in mu.calls(g) if bi in g.cfg.reachable_from(st_))
     if ret_pop:
@@ -654,4 +717,6 @@ RULES = [
     Rule("C18.H", shared(_c14.rule_b, "C14.B", "C18.H"), 14, "value-stack heights are only set from frame offsets (shared with C14.B)"),
     Rule("C18.N", rule_n, 1, "reserved names cannot be registered"),
     Rule("C18.B", rule_b, 4, "re-entry is frame balanced; a failed callee is unwound"),
+    Rule("C18.A", lambda F: abortbal.rule_abort(F, F.fn(_fb.interpreter_loop(F))), 1,
+         "a callee that ends the nested run without returning (Abort) is not taken for a return"),
 ]
